@@ -2,6 +2,7 @@ package main
 
 import (
 	"fmt"
+	"regexp"
 	"go/types"
 	"sort"
 	"strings"
@@ -177,6 +178,7 @@ type Engine struct {
 	schedForks  int
 	vfs         map[string][]value // virtual files of the current path (verifVFSPut)
 	lastTrace   string
+	tracesShown int
 	Asserts     int
 }
 
@@ -782,10 +784,11 @@ func (e *Engine) runPath(entry *ssa.Function) {
 					}
 				case targetPanic:
 					outcome = "panic"
-					if e.trace || e.sh.verbose {
+					if (e.trace || e.sh.verbose) && e.tracesShown < 2 {
+						e.tracesShown++
 						fmt.Printf("uncaught panic %s at: %s\n", e.show(r.v), e.lastTrace)
 					}
-					e.report("panic", e.class, "uncaught panic: "+e.show(r.v))
+					e.report("panic", e.class, "uncaught panic: "+normPanic(e.show(r.v)))
 				default:
 					panic(r)
 				}
@@ -889,3 +892,8 @@ func strUnder(v value, env []uint64) string {
 	}
 	return fmt.Sprintf("<%T>", v)
 }
+
+var reNum = regexp.MustCompile(`\d+`)
+
+// normPanic replaces the numbers of a run-time panic message so that one defect forms one group.
+func normPanic(s string) string { return reNum.ReplaceAllString(s, "N") }
